@@ -86,6 +86,11 @@ func (c Cfg) parseVal(raw []byte) (uint64, error) {
 		return strconv.ParseUint(string(b), 10, 64)
 	case "ptr":
 		return strconv.ParseUint(string(raw), 10, 64)
+	case "np":
+		if strings.TrimSpace(string(raw)) == "null" {
+			return 1, nil
+		}
+		return strconv.ParseUint(string(raw), 10, 64)
 	case "long":
 		var s string
 		if err := json.Unmarshal(raw, &s); err != nil {
